@@ -126,6 +126,45 @@ def generate_behaviours(binary, outdir, tier, seed):
     return files, {"tlc_generated_behaviours": generated, "gen_wall_s": round(time.time() - t0, 1)}
 
 
+MC_PLAN = {"quick": (6, 600), "thorough": (8, 2400)}   # (MaxEvents, timeout seconds)
+MC_CFG = {"accounts": 8, "dids": 2, "validators": 1, "balance": 100000}
+
+
+def model_check_pay(binary, workdir, tier):
+    """Exhaustive TLC run of MC.tla (family "pay": real constants, compressed time) from the real genesis state.
+    A spec-level counterexample is not a verdict: its events are replayed on the real code and the trace joins the others."""
+    stage_spec(workdir)
+    depth, tmo = MC_PLAN[tier]
+    rc, out, _ = run([binary, "genesis", "--cfg", json.dumps(MC_CFG), "--out", os.path.join(workdir, "genesis.json")])
+    if rc != 0:
+        raise MachineryError("genesis failed: " + out[-1000:])
+    cfg = open(os.path.join(workdir, "MC_Pay.cfg")).read().replace("MaxEvents = 6", "MaxEvents = %d" % depth)
+    open(os.path.join(workdir, "MC_Pay.cfg"), "w").write(cfg)
+    ce = os.path.join(workdir, "ce.json")
+    rc, output, wall = tlc(workdir, "MC.tla", "MC_Pay.cfg", workers=16, timeout=tmo, extra=["-dumpTrace", "json", ce])
+    open(os.path.join(workdir, "tlc.out"), "w").write(output)
+    m = None
+    for m in TLC_STATS.finditer(output):
+        pass
+    res = {"depth": depth, "states": int(m.group(2)) if m else 0, "generated": int(m.group(1)) if m else 0, "wall_s": round(wall, 1),
+           "complete": "Model checking completed. No error has been found." in output, "counterexample_trace": None, "spec_violation": None}
+    if "is violated" in output and os.path.exists(ce):
+        d = json.load(open(ce))
+        states = [x[1] for x in d["counterexample"]["state"]]
+        events = states[-1]["hist"]
+        res["spec_violation"] = sorted(states[-1]["bad"])
+        beh = os.path.join(workdir, "cebeh")
+        os.makedirs(beh, exist_ok=True)
+        json.dump(events, open(os.path.join(beh, "beh_ce.json"), "w"))
+        rc2, o2, _ = run([binary, "replay", "--in", beh, "--out", os.path.join(workdir, "cereal"), "--cfg", json.dumps(MC_CFG)], timeout=600)
+        if rc2 not in (0, 3):
+            raise MachineryError("replay of the model counterexample failed: " + o2[-1000:])
+        res["counterexample_trace"] = os.path.join(workdir, "cereal", "beh_ce.ndjson")
+    elif not res["complete"] and res["states"] == 0:
+        raise MachineryError("TLC model checking failed: " + output[-2000:])
+    return res
+
+
 def validate_traces(files, workdir, timeout=3000):
     """Concatenate traces, run TLC with Trace.tla, parse per-formula counts and violations."""
     stage_spec(workdir)
@@ -187,7 +226,12 @@ def family_run(tier, seed, use_cache=True):
         dstats.update(gstats)
         dstats["traces"] += len(gfiles)
         files = files + gfiles
+        mc = model_check_pay(binary, os.path.join(rdir, "mc"), tier)
+        if mc["counterexample_trace"]:
+            files.append(mc["counterexample_trace"])
+            dstats["traces"] += 1
         val = validate_traces(files, os.path.join(rdir, "tlc"))
+        val["mc"] = mc
         # sample: the event kinds of the first trace
         sample = []
         with open(files[0]) as fh:
@@ -284,8 +328,11 @@ def run_property(pid, tier, seed, use_cache=True):
             extra = {k: v for k, v in sel["formulas"].items() if k.startswith(pid + "_") or k.startswith("Conf_")}
             mine.update(extra)
             viol += [v for v in sel["violations"] if v["formula"].startswith(pid + "_") or (pid == "C15" and v["formula"].startswith("Conf_"))]
+        mc = val.get("mc") or {"states": 0, "generated": 0}
         cov = {
-            "states": val["states"], "transitions": max(1, val["states"] - fam["driver"]["traces"]),
+            "states": mc["states"] + val["states"], "transitions": mc["generated"] + max(1, val["states"] - fam["driver"]["traces"]),
+            "model_states_exhaustive": mc["states"], "model_transitions_exhaustive": mc["generated"], "model_check": mc,
+            "observed_states": val["states"],
             "traces_validated_against_impl": fam["driver"]["traces"],
             "samples": [fam["sample"]],
             "formulas": mine,
@@ -295,7 +342,8 @@ def run_property(pid, tier, seed, use_cache=True):
             "tlc_wall_s": round(val["tlc_wall_s"], 1),
             "conformance": val.get("conformance"),
             "divergences": val.get("divergences", [])[:5],
-            "explanation": "states/transitions = states of the real code observed in recorded traces and evaluated by TLC (Trace.tla)",
+            "explanation": "states/transitions = states of the bounded model MC.tla explored exhaustively by TLC (all catalogue formulas as invariants) "
+                           "+ states of the real code observed in recorded traces and evaluated by TLC (Trace.tla: formulas and conformance with Chain!Apply)",
         }
         return {"coverage": cov, "violations": viol, "level": "model_checking",
                 "assumptions": ["keeper-level driver: handlers via MsgServiceRouter in a cache context, module blockers called in app.go order",
